@@ -61,6 +61,8 @@ class C04(Prop):
             c = g.gbool(rng.range(1, 4))
             if rng.chance(1, 10):
                 c = sibling_loops(rng, len(STRINGS))
+            elif rng.chance(1, 10):
+                c = quantified_partial(rng, len(STRINGS))
             probes = [g.gint(rng.range(0, 3)) for _ in range(rng.range(0, 4))]
             if not cond.has_big_range(c) and not any(cond.has_big_range(p) for p in probes):
                 break
@@ -165,6 +167,39 @@ def sibling_loops(rng, nvars):
                          ("forlist", k2, None, [("int", 0), ("int", 1)], probe)])
     c = (rng.choice(["or", "and"]), [first, second])
     return ("un", "not", c) if rng.chance(1, 3) else c
+
+
+def quantified_partial(rng, nvars):
+    """Quantifiers whose bodies are undefined, or need the string matches, for SOME of the elements only: what an
+    undefined body counts for (false) and how decided / pending iterations are counted against N."""
+    k = rng.choice(["all", "all", "any", "none", "expr", "expr", "pct"])
+    shape = rng.below(3)
+    if shape == 0:
+        # over a set of strings: bodies undefined for the strings without (enough) matches
+        vs = sorted(set(rng.below(nvars) for _ in range(rng.range(2, 4))))
+        body = rng.choice([("bin", "ge", ("offset", None, ("int", rng.choice([1, 1, 2]))), ("int", 0)),
+                           ("bin", "gt", ("length", None, ("int", rng.choice([1, 2]))), ("int", 0)),
+                           ("varin", None, ("int", 0), ("offset", None, ("int", rng.choice([1, 2])))),
+                           ("varat", None, ("offset", None, ("int", 1))),
+                           ("bin", "eq", ("readint", "uint8", ("offset", None, ("int", 1))), ("int", rng.choice([97, 122, 0])))])
+        n = len(vs)
+        se = ("int", rng.choice([1, 2, n, n - 1 if n > 1 else 1])) if k == "expr" else (("int", rng.choice([50, 100])) if k == "pct" else None)
+        return ("for", k, se, vs, body)
+    lo = rng.choice([0, 0, 1, 2])
+    hi = lo + rng.choice([1, 1, 2, 3])
+    n = hi - lo + 1
+    decided = ("bin", rng.choice(["eq", "ge", "le", "neq"]), ("bound", 0), ("int", rng.range(lo, hi)))
+    pending = rng.choice([("varat", rng.below(nvars), ("bound", 0)), ("bin", "ge", ("count", rng.below(nvars)), ("bound", 0)),
+                          ("bin", "ge", ("count", rng.below(nvars)), ("bound", 0)), ("var", rng.below(nvars))])
+    if rng.chance(1, 2):
+        k = "expr"       # N elements: decided and pending iterations are both counted against N
+    body = (rng.choice(["or", "and"]), [decided, pending]) if rng.chance(3, 4) else (rng.choice(["or", "and"]), [pending, decided])
+    if k == "pct":
+        k = "expr"
+    se = ("int", rng.choice([1, 2, n, max(1, n - 1)])) if k == "expr" else None
+    if shape == 1:
+        return ("forrange", k, se, ("int", lo), ("int", hi), body)
+    return ("forlist", k, se, [("int", x) for x in range(lo, hi + 1)], body)
 
 
 def tup(x):
